@@ -317,14 +317,24 @@ type Upd struct {
 }
 
 type Lazy struct {
-	key  string
-	et   types.Type
-	base []string // per comp: term of sort (Array Int (Array Int S))
-	ups  []Upd
+	key   string
+	et    types.Type
+	base  []string // per comp: term of sort (Array Int (Array Int S))
+	ups   []Upd
+	d     *Decls   // for abbreviating large intermediate terms
+	sorts []string // per comp sort
 }
 
 func (l *Lazy) clone() *Lazy {
-	return &Lazy{key: l.key, et: l.et, base: l.base, ups: l.ups[:len(l.ups):len(l.ups)]}
+	return &Lazy{key: l.key, et: l.et, base: l.base, ups: l.ups[:len(l.ups):len(l.ups)], d: l.d, sorts: l.sorts}
+}
+
+// abbr names a large intermediate term (define-fun) so that nested reads do not replicate it
+func (l *Lazy) abbr(k int, t string) string {
+	if l.d == nil || len(t) < 160 || k >= len(l.sorts) {
+		return t
+	}
+	return l.d.Define("rd", l.sorts[k], t)
 }
 
 func (l *Lazy) zeroTerms() []string { return flatten(zeroVal(l.et)) }
@@ -357,10 +367,16 @@ func (l *Lazy) readL(arr, idx string, log *[]IdxT) []string {
 		case u.bulk:
 			hit = sAnd(sEq(arr, u.arr), sLe(u.lo, idx), sLt(idx, sAdd(u.lo, u.n)))
 			si := sAdd(u.srcOff, sSub(idx, u.lo))
+			if l.d != nil && len(si) > 160 {
+				si = l.d.Define("ix", "Int", si)
+			}
 			if log != nil {
 				*log = append(*log, IdxT{si, u.srcArr})
 			}
 			v = u.src.readL(u.srcArr, si, log)
+			for k := range v {
+				v[k] = l.abbr(k, v[k])
+			}
 		default:
 			hit, v = sAnd(sEq(arr, u.arr), sEq(idx, u.idx)), u.v
 		}
@@ -370,8 +386,11 @@ func (l *Lazy) readL(arr, idx string, log *[]IdxT) []string {
 		if hit == "false" {
 			continue
 		}
+		if l.d != nil && len(hit) > 200 {
+			hit = l.d.Define("hit", "Bool", hit)
+		}
 		for k := 0; k < n; k++ {
-			r[k] = sIte(hit, v[k], r[k])
+			r[k] = l.abbr(k, sIte(hit, v[k], r[k]))
 		}
 	}
 	return r
